@@ -544,6 +544,8 @@ func runC09(c *Ctx) int {
 	for _, codec := range codecNames {
 		run.Floor("per_call_checks/"+codec, int64(nStreams)*2)
 	}
+	c09AttackKill(c, run)
+	run.Floor("attack_kill_runs", int64(c.Pick(3, 6)))
 	run.Floor("cli_cut_runs/gob", int64(nCLI)/3)
 	run.Floor("cli_cut_runs/json", int64(nCLI)/3)
 	run.FloorDistinct(c.Pick(600, 15000))
